@@ -9,24 +9,28 @@ Open Scope Z_scope.
 Definition build_tbl (d : tdesc) (rows : list row) : tbl :=
   fold_left (fun t r => match add_row d t r with Ok t' => t' | _ => t end) rows (init d 0).
 
-(* F8: ProvenanceTable[slice | mask | ids] raises AttributeError although every index is
-   in range; the same call on a table with a metadata column returns the rows *)
+(* F8 (repaired in /repo by dd5e92d): at the PINNED commit BaseTable.__getitem__ copied
+   metadata_schema unconditionally ([py_getitem_idx_gen false]) and ProvenanceTable[slice |
+   mask | ids] raised AttributeError although every index is in range.  Historical record
+   about the pinned variant; the current model is [py_getitem_idx_gen c13_getitem_schema_guarded]
+   and the positive statement is RefineProofs.py_getitem_idx_refines. *)
 Definition prov_tbl := build_tbl d_provenances [([], [[114]; [116]]); ([], [[115]; [117]])].
 Definition pop_tbl := build_tbl d_populations [([], [[114]]); ([], [[115]])].
 
-Theorem provenance_getitem_slice_refuted :
+Theorem provenance_getitem_slice_pinned_refuted :
   exists t idx, WF d_provenances t /\ Forall (fun i => 0 <= i < nrows t) idx /\
-    py_getitem_idx d_provenances t idx = Err PY_ATTRIBUTE_ERROR.
+    py_getitem_idx_gen false d_provenances t idx = Err PY_ATTRIBUTE_ERROR.
 Proof.
   exists prov_tbl, [1; 0]. split; [vm_compute; reflexivity|]. split; [|vm_compute; reflexivity].
   repeat constructor; vm_compute; congruence.
 Qed.
 
 Example getitem_slice_other_tables :
-  py_getitem_idx d_populations pop_tbl [1; 0] = Ok (rows_at (abs pop_tbl) [1; 0]).
-Proof. vm_compute. reflexivity. Qed.
+  py_getitem_idx_gen false d_populations pop_tbl [1; 0] = Ok (rows_at (abs pop_tbl) [1; 0]) /\
+  py_getitem_idx_gen true d_provenances prov_tbl [1; 0] = Ok (rows_at (abs prov_tbl) [1; 0]).
+Proof. split; vm_compute; reflexivity. Qed.
 
-(* F14: a refused append_columns (bad offsets in the ragged column treated last) leaves
+(* F14 (NOT repaired, still a known finding): a refused append_columns (bad offsets in the ragged column treated last) leaves
    the table outside its invariant ... *)
 Definition f14_cols : cols := ([[5; 6]], [Some ([9; 8], [0; 1; 2]); Some ([1; 1], [0; 3; 2]); None]).
 
@@ -72,12 +76,24 @@ Proof.
   split; vm_compute; reflexivity.
 Qed.
 
-(* F15: for sites and mutations the binding lets metadata_offset *set* num_rows: a shorter
-   array silently drops rows, a longer one makes the C code read past the other arrays *)
-Theorem site_metadata_offset_length_refuted :
-  snd (set_columns d_sites site_tbl ([[0; 1; 2]], [Some ([65; 67; 71], [0; 1; 2; 3]); Some ([], [0; 0])])) = Ok tt /\
-  nrows (fst (set_columns d_sites site_tbl ([[0; 1; 2]], [Some ([65; 67; 71], [0; 1; 2; 3]); Some ([], [0; 0])]))) = 1 /\
-  snd (set_columns d_sites site_tbl ([[0]], [Some ([65], [0; 1]); Some ([], [0; 0; 0])])) = OOB /\
-  (* the same columns are refused for a table whose binding checks the length *)
-  snd (set_columns d_nodes (init d_nodes 0) ([[0; 1]; [0; 0]; [-1; -1]; [-1; -1]], [Some ([], [0; 0])])) = Err PY_VALUE_ERROR.
+(* F15 (repaired in /repo by b50fe2e): at the PINNED commit parse_site_table_dict and
+   parse_mutation_table_dict let metadata_offset *set* num_rows ([with_mdlen_bug d true]): a
+   shorter array silently dropped rows, a longer one made the C code read past the other
+   arrays.  Historical record about the pinned variant; the current descriptors take the flag
+   from the source (the c13_md_offset_length_checked facts) and ColsProofs.parse_cols_lengths is the
+   positive statement. *)
+Definition d_sites_pinned := with_mdlen_bug d_sites true.
+
+Theorem site_metadata_offset_length_pinned_refuted :
+  snd (set_columns d_sites_pinned site_tbl ([[0; 1; 2]], [Some ([65; 67; 71], [0; 1; 2; 3]); Some ([], [0; 0])])) = Ok tt /\
+  nrows (fst (set_columns d_sites_pinned site_tbl ([[0; 1; 2]], [Some ([65; 67; 71], [0; 1; 2; 3]); Some ([], [0; 0])]))) = 1 /\
+  snd (set_columns d_sites_pinned site_tbl ([[0]], [Some ([65], [0; 1]); Some ([], [0; 0; 0])])) = OOB.
+Proof. repeat split; vm_compute; reflexivity. Qed.
+
+(* the repaired code refuses both column sets, for every table *)
+Example metadata_offset_length_refused_now :
+  td_mdlen_bug d_sites = false /\ td_mdlen_bug d_mutations = false /\
+  snd (set_columns d_sites site_tbl ([[0; 1; 2]], [Some ([65; 67; 71], [0; 1; 2; 3]); Some ([], [0; 0])])) = Err PY_VALUE_ERROR /\
+  snd (set_columns d_sites site_tbl ([[0]], [Some ([65], [0; 1]); Some ([], [0; 0; 0])])) = Err PY_VALUE_ERROR /\
+  fst (set_columns d_sites site_tbl ([[0]], [Some ([65], [0; 1]); Some ([], [0; 0; 0])])) = site_tbl.
 Proof. repeat split; vm_compute; reflexivity. Qed.
